@@ -636,6 +636,11 @@ class Stream:
     def __init__(self, cands):
         self.cands = [np.array([float(x) for x in c]) for c in cands]
         self.pos = 0
+        # every other script hands its candidates out through one buffer that is overwritten by the next
+        # draw (a generator is free to do that: the vocabulary has to keep values, not references)
+        self.buf = None
+        if self.cands and (len(self.cands) + int(round(abs(float(self.cands[0][0])) * 8))) % 2 == 1:
+            self.buf = np.zeros(len(self.cands[0]))
 
     def __iter__(self):
         return self
@@ -644,6 +649,9 @@ class Stream:
         if self.pos >= len(self.cands):
             raise StopIteration
         self.pos += 1
+        if self.buf is not None and len(self.cands[self.pos - 1]) == len(self.buf):
+            self.buf[:] = self.cands[self.pos - 1]
+            return self.buf
         return self.cands[self.pos - 1]
 
 
